@@ -455,6 +455,19 @@ def sec_cz(ctx, rng, case):
     if (False, False) in counts and (False, True) in counts:
         ctx.check(counts[(False, False)] == counts[(False, True)], "two_qubit_matrix_to_cz_operations:clean-keeps-count",
                   "C15:two_qubit_matrix_to_cz_operations:clean-changes-cz-count", "counts %r" % counts, **wit)
+    # the same matrix handed over in a real dtype (float64 / int) is the same operation
+    if case % 7 == 0:
+        cn = np.array([[1, 0, 0, 0], [0, 1, 0, 0], [0, 0, 0, 1], [0, 0, 1, 0]])
+        reals = [("CNOT", cn), ("CNOT-reversed", cn[[0, 3, 2, 1]][:, [0, 3, 2, 1]]), ("SWAP", np.eye(4)[[0, 2, 1, 3]]), ("CZ", np.diag([1, 1, 1, -1])),
+                 ("XX", np.eye(4)[::-1]), ("orthogonal", UW.random_orthogonal(rng, 4)), ("X(x)I", np.kron(W.X.real, np.eye(2))), ("-I", -np.eye(4))]
+        rname, rm = reals[(case // 7) % len(reals)]
+        rm = rm.astype(float) if rng.random() < 0.6 or rname == "orthogonal" else rm.astype(int)
+        n_real, n_cplx = cirq.num_cnots_required(rm), cirq.num_cnots_required(rm.astype(complex))
+        ctx.check(n_real == n_cplx, "real-dtype==complex-dtype", "C15:num_cnots_required:real-dtype-differs",
+                  "num_cnots_required(%s as %s) = %d, as complex128 = %d" % (rname, rm.dtype, n_real, n_cplx), matrix=rm)
+        ops_r = cirq.two_qubit_matrix_to_cz_operations(q0, q1, rm, False, 1e-8, True)
+        vr, dr, nr = P.post_cz_operations(q0, q1, rm.astype(complex), ops_r, False, 1e-8, True, W.weyl_coordinates(rm.astype(complex)))
+        _emit(ctx, vr, matrix=rm, real_dtype=str(rm.dtype))
     # num_cnots_required against the reference class, outside the grey band
     nc = cirq.num_cnots_required(u)
     # its atol is applied to traces of gamma(U), which are second order in the distance from a class boundary (e.g. Im tr ~ 4 y z
@@ -829,7 +842,7 @@ def sec_multiq(ctx, rng, case):
         u, label = UW.gen_one_qubit(rng, case // 4)
         style = int(rng.integers(3))
         if style == 0:
-            u = u / np.sqrt(np.linalg.det(u))  # special unitary: the O(n) branch
+            u = u / np.sqrt(complex(np.linalg.det(u)))  # special unitary: the O(n) branch
             label += ":su2"
         elif style == 1 and rng.random() < 0.5:
             u = np.real_if_close(u)
